@@ -1,5 +1,6 @@
 """Per-property configuration and the generic check runner."""
 import collections
+import shutil
 import subprocess
 import json
 import os
@@ -177,7 +178,6 @@ def run(pid, tier, seed):
     notes = []
     work = os.path.join(BUILD, "run", "%s-%s" % (pid, tier))
     os.makedirs(work, exist_ok=True)
-    import shutil
     for f in os.listdir(work):
         q = os.path.join(work, f)
         shutil.rmtree(q) if os.path.isdir(q) else os.remove(q)
@@ -353,6 +353,9 @@ def run(pid, tier, seed):
         print("  " + v["what"])
     print("%s %s: obligations %d/%d, cases %d (distinct non-trivial %d), differences %d, %.1fs" % (
         pid, tier, coq["discharged"], coq["obligations"], len(cases), len(distinct), len(diffs), time.time() - t0))
+    # the case files of a run can be gigabytes (thorough tiers): keep them only when something was found
+    if not violations and not os.environ.get("VERIF_KEEP_RUN"):
+        shutil.rmtree(work, ignore_errors=True)
     return 1 if violations else 0
 
 
